@@ -338,6 +338,7 @@ def run(ctx):
                 'checkers and no checker; per backend: matching subset-of candidates subset-of stored (by uid), '
                 'Guard.is_allowed equal to the in-memory answer, candidate membership compared with the model predicate; '
                 'non-trivial = >=1 matching policy' % len(BACKENDS))
+    out.rule += '; in a fifth of the cases every third policy is first stored as a policy of the other kind and then updated; in two fifths of the cases with a second inquiry the search is requested, another search is made and consumed, and only then are the first candidates consumed (lazy cursors)'
     return out
 
 
